@@ -79,6 +79,9 @@ class _BitPaddedMixin(object):
                width: int = 4, minwidth: int = 4) -> bytes:
         mask = (1 << bits) - 1
 
+        if value < 0:
+            raise ValueError('Value must not be negative')
+
         if width != -1:
             index = 0
             bytes_ = bytearray(width)
